@@ -39,6 +39,38 @@ CLAIMS = {
         design_ref="DESIGN.md §5 C14, §4.5",
         note="Trusted: TLC, harness fixtures (verif_c14_fixture, a real dist-info directory providing entry points), component path observed via "
              "current_context().path. Hard-coded child overridden by None and a root config containing 'type' are unspecified, not generated."),
+    "C02": dict(
+        technique="exhaustive replay of the TLC state graph of specs/Ctx.tla (every state, every transition, every outcome that changes "
+                  "nothing) against real Context objects, full projection of every context compared after each step; design properties "
+                  "ScopedDown / OnlyActedOn checked by TLC on the complete step relation",
+        text="TLC proves on the bounded Ctx model (<=3 contexts, <=3 registrations) that nothing flows up or sideways and that children hold "
+             "exactly the creation-time snapshot; every transition of the bounded graphs is then executed against real contexts and after "
+             "each step get_resources of every type on every context, every lookup API's result and the closed flags are compared with the "
+             "model. Differences in a context other than the acted-on one, in a freshly created child, or between lookup paths are C02.",
+        design_ref="DESIGN.md §5 C02, §4.1", note="Trusted: TLC, the replay driver (harness/ctxreplay.py), Python object identity. Bounds: 2-3 contexts, 1-3 registrations, 2 types, 1-2 names; sequential histories (races are covered by the race family)."),
+    "C03": dict(
+        technique="exhaustive replay of the TLC state graph of specs/Ctx.tla against real Context objects; masks: result class of adds "
+                  "(ResourceConflict, failing flawed adds), unchanged projection / no event / no callback after a failing add, stability of "
+                  "handed-out objects; design properties Stable / FailedChangesNothing checked by TLC",
+        text="Every (state, operation) pair of the bounded Ctx graphs is executed on real contexts: conflicting adds on the first or second "
+             "type, invalid name / None / invalid type / invalid teardown callback in every state; after each failing call the projection, "
+             "the events of all contexts and - at exit - the callbacks run must be unchanged; every lookup result must equal the object the "
+             "model says the pair resolves to.",
+        design_ref="DESIGN.md §5 C03, §4.1", note="Trusted as C02. Exception classes for invalid arguments are not fixed by the statement (any ValueError/TypeError accepted)."),
+    "C04": dict(
+        technique="exhaustive replay of the TLC state graph of specs/Ctx.tla (sync/async factories, one/two types, both lookup APIs, child "
+                  "creation before/after generation) with factory call counting; design properties GenNotShared / GenIsOwn checked by TLC",
+        text="For every generating lookup of the bounded graphs the real code must call the factory exactly once, return the canonical "
+             "generated object, cache it under the factory's free keys only, keep it out of the parent and of later children, and raise "
+             "AsyncResourceError (registering nothing, running no factory body) for sync lookups of async factories of four callable shapes.",
+        design_ref="DESIGN.md §5 C04, §4.1", note="Trusted as C02. Concurrent lookups are decided by the race family, not by this sequential graph."),
+    "C18": dict(
+        technique="exhaustive replay of the TLC state graph of specs/Ctx.tla with a resource_added listener on every context; the events "
+                  "received during each step are compared with the step's predicted events (design property EventsRight checked by TLC)",
+        text="Each step of the bounded graphs predicts the exact multiset of ResourceEvents (context, types, name, is_factory, source, topic) "
+             "that listeners on all contexts must receive: one for a successful add / factory registration / first generation, none for failing "
+             "calls and plain lookups, none on any other context.",
+        design_ref="DESIGN.md §5 C18, §4.1", note="Trusted as C02. For a generation that could not take all factory keys both 'all factory types' and 'registered types' are accepted."),
 }
 
 PENDING_REASON = "check not built yet in this build session; planned (DESIGN.md §5)"
